@@ -70,13 +70,33 @@ impl Backend for Typescript {
             let (pdus, warnings): (String, Vec<CompilerError>) =
                 tlds.into_iter()
                     .fold((String::new(), vec![]), |mut acc, tld| {
+                        #[cfg(feature = "verif-hooks")]
+                        let verif_tld = (
+                            tld.name().clone(),
+                            crate::verif_hooks::tld_kind(&tld),
+                            module.name.clone(),
+                        );
+                        #[cfg(feature = "verif-hooks")]
+                        let verif_record = |outcome: &'static str, tokens: usize| {
+                            crate::verif_hooks::record(crate::verif_hooks::Event::TldOutcome {
+                                module: verif_tld.2.clone(),
+                                name: verif_tld.0.clone(),
+                                kind: verif_tld.1,
+                                outcome,
+                                tokens,
+                            })
+                        };
                         match self.generate(tld) {
                             Ok(s) => {
+                                #[cfg(feature = "verif-hooks")]
+                                verif_record(if s.trim().is_empty() { "Empty" } else { "Tokens" }, s.len());
                                 acc.0.push('\n');
                                 acc.0.push_str(&s);
                                 acc
                             }
                             Err(e) => {
+                                #[cfg(feature = "verif-hooks")]
+                                verif_record("Err", 0);
                                 acc.1.push(e.into());
                                 acc
                             }
